@@ -127,6 +127,31 @@ def programs(rng, tier):
         else:
             trig = "v" + "".join("1" if (x in qs) else "0" for x in range(nv))
             P.add(["nested", partial_table(rng, rng.choice(CONNS)), OR_T() if rng.random() < 0.5 else AND_T(), bdd_sx(a), bdd_sx(b), trig])
+    # re-entrant use: the trigger closure of binary_op_nested itself runs quantifications (on a third operand) before answering
+    for _ in range(60 if tier == "quick" else 1500):
+        nv = rng.choice([4, 5, 6, 8])
+        a, b, side = rand_operand(rng, nv, 0.0), rand_operand(rng, nv, 0.0), random_bdd(rng, nv, max_support=min(nv, 6))
+        trig = "v" + "".join("1" if (x < nv // 2 or rng.random() < 0.3) else "0" for x in range(nv))
+        P.add(["nested_re", partial_table(rng, rng.choice(CONNS)), OR_T() if rng.random() < 0.5 else AND_T(), bdd_sx(a), bdd_sx(b), trig, bdd_sx(side)])
+    # long quantifier lists that form ONE contiguous block of 16..40 variables (in order, reversed or shuffled), the supported
+    # variables sitting at the first and at the LAST position of the block
+    for _ in range(40 if tier == "quick" else 1200):
+        nv = rng.choice([17, 20, 24, 33, 40, 64])
+        width = rng.randrange(16, min(nv, 40) + 1)
+        lo = rng.randrange(0, nv - width + 1)
+        block = list(range(lo, lo + width))
+        sup = sorted({block[0], block[-1]} | set(rng.sample(range(nv), rng.randrange(1, 3))))
+        a = bdd_from_tt(nv, sup, [rng.random() < 0.5 for _ in range(1 << len(sup))])
+        supb = sorted(set(rng.sample(sup, rng.randrange(1, len(sup) + 1))))
+        b = bdd_from_tt(nv, supb, [rng.random() < 0.5 for _ in range(1 << len(supb))])
+        order = rng.random()
+        vsl = block if order < 0.5 else block[::-1] if order < 0.7 else rng.sample(block, len(block))
+        vs = ["L"] + [str(x) for x in vsl]
+        kk = rng.random()
+        if kk < 0.5:
+            P.add([rng.choice(["exists", "for_all", "project"]), bdd_sx(a), vs])
+        else:
+            P.add([rng.choice(["bin_exists", "bin_for_all"]), partial_table(rng, rng.choice(CONNS)), bdd_sx(a), bdd_sx(b), vs])
     # thousands of variables with decision variables CONGRUENT modulo 256 / 1024 / 4096 / 32768 (a per-variable table indexed by
     # the variable modulo a power of two confuses them): exactly one of each congruent pair is quantified
     for _ in range(60 if tier == "quick" else 1500):
